@@ -4,6 +4,7 @@ import GateryModel.C01.SeqLift
 import GateryModel.C01.Masking
 import GateryModel.C01.MuxChain
 import GateryModel.C01.RewireRules
+import GateryModel.C01.Unused
 /-!
 # C01 — property theorems
 
@@ -200,6 +201,26 @@ theorem mEnv : MaskEnv [[B4.t], BV4.ofNat 4 5, BV4.ofNat 4 9] mOld mS 4 0 1 2 4 
 example : (evalNet [[B4.t], BV4.ofNat 4 5, BV4.ofNat 4 9] mNew).getD 5 none = (evalNet [[B4.t], BV4.ofNat 4 5, BV4.ofNat 4 9] mOld).getD 5 none ∧
     (evalNet [[B4.t], BV4.ofNat 4 5, BV4.ofNat 4 9] mNew).getD 4 none ≠ (evalNet [[B4.t], BV4.ofNat 4 5, BV4.ofNat 4 9] mOld).getD 4 none :=
   ⟨removeIrrelevantMuxes_netlist mInstance _ mEnv 5 rfl, by decide⟩
+
+/-! ### cullUnusedNodes / cullOrphanedSignalNodes -/
+
+/-- Nodes that no kept node reads can be removed (modelled: replaced by anything, indices stay): every kept node keeps its value, for every
+    environment, undefined bits included. Any netlist, any set of removed nodes. Together with C11's `all_decorations_transparent`
+    (every input re-routed past its chain of signal nodes) this covers the signal-culling passes. -/
+theorem cullUnusedNodes_rule (env : Env) (old new : List NetNode) (hlen : new.length = old.length) (S : Nat → Bool) (htopo : Topo old)
+    (hsame : ∀ j, S j = false → new[j]? = old[j]?)
+    (hunread : ∀ j n, old[j]? = some n → S j = false → ∀ i, some i ∈ n.ins → S i = false) :
+    ∀ j, S j = false → (evalNet env new).getD j none = (evalNet env old).getD j none :=
+  unread_set_irrelevant env old new hlen S htopo hsame hunread
+
+/-- non-vacuity: node 4 of `mNew` (the rewired NOT) is read by node 5, node 3 (the bypassed mux) by nobody any more: replacing it changes nothing else -/
+example : ∀ j, j ≠ 3 → (evalNet [[B4.t], BV4.ofNat 4 5, BV4.ofNat 4 9] (mNew.set 3 ⟨.node (.const (BV4.ofNat 4 0)) .bitvec, 4, []⟩)).getD j none =
+    (evalNet [[B4.t], BV4.ofNat 4 5, BV4.ofNat 4 9] mNew).getD j none := by
+  intro j hj
+  match j with
+  | 0 | 1 | 2 | 4 | 5 => decide
+  | 3 => exact absurd rfl hj
+  | j+6 => simp [mNew, evalNet, evalNetFrom, List.getD_eq_getElem?_getD]
 
 /-! ### mergeRewires / optimizeRewireNodes -/
 
